@@ -18,7 +18,16 @@
 #endif
 #define CB_CALLS 4
 #include "stream_cb.h"
+#include <string.h>
+#ifdef MEMSET_MODEL
+/* memset model for the one call lha_lh_new_init makes (fill of the whole ring): a whole-array assignment instead of
+ * 16384 single stores.  Any other call shape fails the CHECK.  The byte-wise semantics of that call on the real
+ * memset is checked by harness_init. */
+static void *verif_memset(void *d, int c, size_t n);
+#define memset verif_memset
+#endif
 #include "lib/lh5_decoder.c"
+#undef memset
 
 #ifndef NLIT
 #define NLIT 2
@@ -32,6 +41,18 @@
 #define TOTAL (NLIT + NCOPY * LENMAX)
 
 static LHANewDecoder dec;
+#ifdef MEMSET_MODEL
+static void *verif_memset(void *d, int c, size_t n)
+{
+	CHECK(d == (void *) dec.ringbuf && n == sizeof(dec.ringbuf), "harness: memset model covers exactly 'fill the whole ring'");
+#ifdef __CPROVER__
+	__CPROVER_array_set(dec.ringbuf, (uint8_t) c);
+#else
+	{ size_t i; for (i = 0; i < n; ++i) ((uint8_t *) d)[i] = (uint8_t) c; }
+#endif
+	return d;
+}
+#endif
 static unsigned wp;
 static void put(unsigned v, unsigned n)
 {
@@ -106,5 +127,23 @@ void harness(void)
 	}
 	if (d[0] >= 2 && d[0] <= 3 && len >= 5) WITNESS("copy mixes pre-filled window, literals and its own output");
 	if (d[NCOPY - 1] == 16383) WITNESS("largest distance the ring can address");
+	WITNESS("end");
+}
+
+/* init alone, real memset: the window is all spaces (any cell), position 0, first read starts a block, bit buffer
+ * empty, and every tree is in its initial all-leaves state */
+void harness_init(void)
+{
+	INPUT(u32, probe); INPUT(u32, tprobe);
+	ASSUME(probe < RING_BUFFER_SIZE && tprobe < NUM_CODES * 2);
+	CHECK(lha_lh5_decoder.init(&dec, cb_read, 0) == 1, "C01 H01.e2e: init succeeds");
+	CHECK(dec.ringbuf[probe] == ' ', "C01 H01.e2e: the window starts filled with spaces");
+	CHECK(dec.ringbuf_pos == 0 && dec.block_remaining == 0, "C01 H01.e2e: write position 0; the first read starts a block");
+	CHECK(dec.bit_stream_reader.bits == 0 && dec.bit_stream_reader.bit_buffer == 0 && dec.bit_stream_reader.callback == cb_read,
+	      "C01 H01.e2e: empty bit buffer bound to the caller's callback");
+	CHECK(dec.code_tree[tprobe] == TREE_NODE_LEAF, "C01 H01.e2e: code tree initialised");
+	if (tprobe < MAX_OFFSET_CODES * 2) CHECK(dec.offset_tree[tprobe] == TREE_NODE_LEAF, "C01 H01.e2e: offset tree initialised");
+	if (tprobe < MAX_TEMP_CODES * 2) CHECK(dec.temp_tree[tprobe] == TREE_NODE_LEAF, "C01 H01.e2e: temp tree initialised");
+	if (probe == RING_BUFFER_SIZE - 1) WITNESS("last window cell");
 	WITNESS("end");
 }
